@@ -64,8 +64,9 @@ def make_entries(fmt, n, lens, rng):
         if fmt in ("k1", "bed"):
             out.append(f"c{num}\t{num}\t{int(num) + 5}\n")
         elif fmt == "bed6":
-            # optional-int scores of DIFFERING widths (7, 13, 700, 9, 15000, …) and the '.' placeholder
-            score = '.' if i % 3 == 0 else str((7 + i) * 10 ** ((i * 2) % 5 if i % 2 else 0))
+            # optional-int scores of DIFFERING widths and the '.' placeholder; runs of rows without '.' whose widths are 2,1,3,2:
+            # totals that equal rows x (width of the first value) although the widths differ
+            score = ['.', f"1{i % 10}", f"{i % 10}", f"1{i % 10}7", f"2{i % 10}"][i % 5] if i % 10 != 7 else str((7 + i) * 10 ** (i % 5))
             out.append(f"c{num}\t{num}\t{int(num) + 5}\tn{'x' * l}\t{score}\t{'+-'[i % 2]}\n")
         elif fmt == "bdg":
             # some values with 16-17 significant digits: parsing a row must not depend on the rows that share its buffer
